@@ -1,0 +1,26 @@
+//go:build verif
+
+// Package verifyield provides named schedule-perturbation points for the
+// runtime monitors under /verif.  With the "verif" build tag a function
+// installed by the harness is called at each point; it may yield or sleep.
+// Points are never placed inside a held lock.
+package verifyield
+
+import "sync/atomic"
+
+var fn atomic.Value // func(string)
+
+// Set installs (or, with nil, removes) the function called at every point.
+func Set(f func(string)) {
+	if f == nil {
+		f = func(string) {}
+	}
+	fn.Store(f)
+}
+
+// Point calls the installed function, if any.
+func Point(name string) {
+	if f, ok := fn.Load().(func(string)); ok {
+		f(name)
+	}
+}
